@@ -18,7 +18,7 @@ pub enum Ctor {
     FromU64(u64),
     /// JitterRng::new_with_timer over raw_readings(salt, len) (+ `stuck_run` consecutive stuck
     /// measurements starting at reading 5); rounds set right after if Some
-    Jitter { salt: u64, len: usize, rounds: Option<u8>, stuck_run: usize, overrides: Vec<(usize, u64)> },
+    Jitter { salt: u64, len: usize, rounds: Option<u8>, stuck_run: usize, overrides: Vec<(usize, u64)>, zst: Option<u8>, scale: u64 },
 }
 
 #[derive(Clone, Debug, PartialEq, Eq, PartialOrd, Ord)]
@@ -33,7 +33,7 @@ impl Inst {
         let c = match &self.ctor {
             Ctor::FromSeed(s) => json!({"from_seed": hex(s)}),
             Ctor::FromU64(x) => json!({"seed_from_u64": x}),
-            Ctor::Jitter { salt, len, rounds, stuck_run, overrides } => json!({"jitter": {"salt": salt, "len": len, "rounds": rounds, "stuck_run": stuck_run, "overrides": overrides}}),
+            Ctor::Jitter { salt, len, rounds, stuck_run, overrides, zst, scale } => json!({"jitter": {"salt": salt, "len": len, "rounds": rounds, "stuck_run": stuck_run, "overrides": overrides, "zero_sized_timer_slot": zst, "scale": scale}}),
         };
         json!({"type": self.ty, "ctor": c, "ops": ops_json(&self.ops)})
     }
@@ -45,7 +45,7 @@ impl Inst {
         } else if let Some(x) = c.get("seed_from_u64").and_then(|x| x.as_u64()) {
             Ctor::FromU64(x)
         } else if let Some(j) = c.get("jitter") {
-            Ctor::Jitter { salt: j.get("salt")?.as_u64()?, len: j.get("len")?.as_u64()? as usize, rounds: j.get("rounds").and_then(|r| r.as_u64()).map(|r| r as u8), stuck_run: j.get("stuck_run").and_then(|r| r.as_u64()).unwrap_or(0) as usize, overrides: j.get("overrides").and_then(|o| o.as_array()).map(|a| a.iter().filter_map(|p| Some((p.get(0)?.as_u64()? as usize, p.get(1)?.as_u64()?))).collect()).unwrap_or_default() }
+            Ctor::Jitter { salt: j.get("salt")?.as_u64()?, len: j.get("len")?.as_u64()? as usize, rounds: j.get("rounds").and_then(|r| r.as_u64()).map(|r| r as u8), stuck_run: j.get("stuck_run").and_then(|r| r.as_u64()).unwrap_or(0) as usize, overrides: j.get("overrides").and_then(|o| o.as_array()).map(|a| a.iter().filter_map(|p| Some((p.get(0)?.as_u64()? as usize, p.get(1)?.as_u64()?))).collect()).unwrap_or_default(), zst: j.get("zero_sized_timer_slot").and_then(|r| r.as_u64()).map(|r| r as u8), scale: j.get("scale").and_then(|r| r.as_u64()).unwrap_or(1) }
         } else {
             return None;
         };
@@ -62,15 +62,24 @@ pub fn construct(reg: &dyn Registry, i: &Inst) -> Box<dyn Gen> {
     match &i.ctor {
         Ctor::FromSeed(s) => reg.get(&i.ty).expect("type").from_seed(s),
         Ctor::FromU64(x) => reg.get(&i.ty).expect("type").seed_from_u64(*x),
-        Ctor::Jitter { salt, len, rounds, stuck_run, overrides } => {
-            let base = jitter_env::raw_readings(*salt, *len);
+        Ctor::Jitter { salt, len, rounds, stuck_run, overrides, zst, scale } => {
+            let mut base = jitter_env::raw_readings(*salt, *len);
+            if *scale != 1 {
+                let r0 = base[0];
+                for r in base.iter_mut() {
+                    *r = r0.wrapping_add(r.wrapping_sub(r0).wrapping_mul(*scale));
+                }
+            }
             let mut readings = if *stuck_run > 0 { jitter_env::with_stuck_run(&base, 5, *stuck_run, jitter_env::Dev::Repeat3) } else { base };
             for &(i, v) in overrides {
                 if i < readings.len() {
                     readings[i] = v;
                 }
             }
-            let mut g = reg.jitter(TimerScript::new(readings));
+            let mut g = match zst {
+                Some(slot) => reg.jitter_zst(*slot as usize, TimerScript::new(readings)),
+                None => reg.jitter(TimerScript::new(readings)),
+            };
             if let Some(r) = rounds {
                 g.jitter().unwrap().set_rounds(*r);
             }
@@ -306,8 +315,8 @@ pub fn run(reg: &dyn Registry, ctx: &Ctx) -> Outcome {
         configs.push(vec![Inst { ty: small.into(), ctor: Ctor::FromSeed(vec![0u8; s.info().seed_len]), ops: vec![Op::U64, Op::U64] }, Inst { ty: large.into(), ctor: Ctor::FromSeed(vec![0u8; l.info().seed_len]), ops: vec![Op::U64, Op::U64] }]);
     }
     // JitterRng with scripted timers: two instances; one runs test_timer first
-    let jit = |salt: u64, len: usize, rounds: Option<u8>, ops: Vec<Op>| Inst { ty: "JitterRng".into(), ctor: Ctor::Jitter { salt, len, rounds, stuck_run: 0, overrides: vec![] }, ops };
-    let jit_stuck = |salt: u64, len: usize, rounds: Option<u8>, stuck_run: usize, ops: Vec<Op>| Inst { ty: "JitterRng".into(), ctor: Ctor::Jitter { salt, len, rounds, stuck_run, overrides: vec![] }, ops };
+    let jit = |salt: u64, len: usize, rounds: Option<u8>, ops: Vec<Op>| Inst { ty: "JitterRng".into(), ctor: Ctor::Jitter { salt, len, rounds, stuck_run: 0, overrides: vec![], zst: None, scale: 1 }, ops };
+    let jit_stuck = |salt: u64, len: usize, rounds: Option<u8>, stuck_run: usize, ops: Vec<Op>| Inst { ty: "JitterRng".into(), ctor: Ctor::Jitter { salt, len, rounds, stuck_run, overrides: vec![], zst: None, scale: 1 }, ops };
     // one instance sees a long run of stuck measurements, the other an ordinary single one
     for k in [40usize, 140, 300, 1100] {
         configs.push(vec![jit_stuck(7, 3 * k + 400, Some(2), k, vec![Op::U64, Op::U32]), jit_stuck(8, 400, Some(2), 1, vec![Op::U64, Op::U64])]);
@@ -331,7 +340,7 @@ pub fn run(reg: &dyn Registry, ctx: &Ctx) -> Outcome {
             if let Some(d1) = d1 {
                 ov.push((5, b_base[0].wrapping_add(d0).wrapping_add(d1)));
             }
-            Inst { ty: "JitterRng".into(), ctor: Ctor::Jitter { salt: 22, len: 200, rounds: Some(1), stuck_run: 0, overrides: ov }, ops: vec![Op::U64, Op::U64] }
+            Inst { ty: "JitterRng".into(), ctor: Ctor::Jitter { salt: 22, len: 200, rounds: Some(1), stuck_run: 0, overrides: ov, zst: None, scale: 1 }, ops: vec![Op::U64, Op::U64] }
         };
         let a = jit(21, 200, Some(1), vec![Op::U64, Op::U32]);
         // L == d0 ; L - d0 == L2 ; L == 2*d0 - d1
@@ -340,6 +349,16 @@ pub fn run(reg: &dyn Registry, ctx: &Ctx) -> Outcome {
         let d0 = 1500u64;
         configs.push(vec![a.clone(), mk_b(d0, Some((2 * d0).wrapping_sub(l)))]);
         configs.push(vec![a, mk_b(l, Some(l))]);
+    }
+    // timers that are zero-sized `fn` items of different types (anything cached per timer *type* or per
+    // "stateless timer" would connect them): different qualities, test_timer on one before the other
+    {
+        let zst = |slot: u8, salt: u64, scale: u64, ops: Vec<Op>| Inst { ty: "JitterRng".into(), ctor: Ctor::Jitter { salt, len: 1900, rounds: None, stuck_run: 0, overrides: vec![], zst: Some(slot), scale }, ops };
+        for (sa, sb) in [(1u64, 100u64), (1, 64), (64, 1), (100, 1)] {
+            configs.push(vec![zst(0, 31, sa, vec![Op::TestTimer, Op::U64]), zst(1, 32, sb, vec![Op::TestTimer, Op::U64])]);
+        }
+        configs.push(vec![zst(0, 33, 1, vec![Op::TestTimer]), zst(1, 34, 64, vec![Op::TestTimer]), zst(2, 35, 100, vec![Op::TestTimer])]);
+        // the same fn item type for two generators (slot shared: one after the other only)
     }
     // three instances for representative types
     for name in ["Xoshiro256PlusPlus", "XorShiftRng", "Hc128Rng", "IsaacRng", "Isaac64Rng", "Xoroshiro64Star"] {
@@ -479,6 +498,9 @@ pub fn run(reg: &dyn Registry, ctx: &Ctx) -> Outcome {
             fn clone_box(&self) -> Box<dyn Gen> {
                 unimplemented!()
             }
+            fn clone_from_dyn(&mut self, _: &dyn Gen) {
+                unimplemented!()
+            }
             fn eq_dyn(&self, _: &dyn Gen) -> Option<bool> {
                 None
             }
@@ -538,6 +560,117 @@ pub fn run(reg: &dyn Registry, ctx: &Ctx) -> Outcome {
             }
         }
     }
+    // ---------------- operations overlapping in time ----------------
+    // The timer of a JitterRng is user code too: while instance A waits inside its timer read number k,
+    // instance B (another JitterRng, or a seeded generator) runs a whole operation — on the same thread
+    // (called from the timer) or on another thread (A's thread parked in the timer meanwhile). Every k
+    // of A's operation is a scheduling point; both instances must return what they return one after
+    // the other.
+    {
+        use std::sync::{Arc, Mutex};
+        let obs_of = |g: &mut Box<dyn Gen>, ops: &[Op]| -> Vec<String> { ops.iter().map(|o| apply(g, o).to_json().to_string()).collect() };
+        let a_variants: Vec<(u8, Vec<Op>, usize)> = vec![
+            // (rounds, ops of A, number of reading indices of A's history to use as scheduling points)
+            (1, vec![Op::U64, Op::U32], 2 * jitter_env::readings_per_word(1)),
+            (2, vec![Op::U32, Op::U32, Op::Fill(9)], 3 * jitter_env::readings_per_word(2)),
+            (3, vec![Op::TimerStats(true), Op::U64], 4 + jitter_env::readings_per_word(3)),
+        ];
+        #[derive(Clone)]
+        enum B {
+            Jitter(u8, Vec<Op>),
+            Seeded(&'static str),
+        }
+        let b_variants = vec![B::Jitter(1, vec![Op::U64]), B::Jitter(2, vec![Op::U32, Op::U32]), B::Jitter(1, vec![Op::TimerStats(false), Op::U64]), B::Seeded("Hc128Rng"), B::Seeded("Isaac64Rng"), B::Seeded("Xoshiro256PlusPlus")];
+        let mk_b = |b: &B| -> (Box<dyn Gen>, Vec<Op>) {
+            match b {
+                B::Jitter(rounds, ops) => {
+                    let mut g = reg.jitter(TimerScript::new(jitter_env::raw_readings(ctx.seed ^ 0x19B2, 400)));
+                    g.jitter().unwrap().set_rounds(*rounds);
+                    (g, ops.clone())
+                }
+                B::Seeded(name) => {
+                    let ty = reg.get(name).unwrap();
+                    (ty.from_seed(&dense(ty, 9)), vec![Op::U64, Op::Fill(5)])
+                }
+            }
+        };
+        let mut overlaps = 0u64;
+        'outer: for (rounds, a_ops, points) in &a_variants {
+            let a_readings = jitter_env::raw_readings(ctx.seed ^ 0x19A1 ^ *rounds as u64, 600);
+            // one after the other
+            let want_a = {
+                let mut a = reg.jitter(TimerScript::new(a_readings.clone()));
+                a.jitter().unwrap().set_rounds(*rounds);
+                obs_of(&mut a, a_ops)
+            };
+            for b in &b_variants {
+                let want_b = {
+                    let (mut g, ops) = mk_b(b);
+                    obs_of(&mut g, &ops)
+                };
+                for k in 0..*points {
+                    for other_thread in [false, true] {
+                        let script = TimerScript::new(a_readings.clone());
+                        let (bg, b_ops) = mk_b(b);
+                        let slot: Arc<Mutex<(Option<Box<dyn Gen>>, Vec<String>)>> = Arc::new(Mutex::new((Some(bg), Vec::new())));
+                        let slot2 = slot.clone();
+                        let b_ops2 = b_ops.clone();
+                        script.hook_at(
+                            k,
+                            Box::new(move || {
+                                let work = move || {
+                                    let mut s = slot2.lock().unwrap();
+                                    let mut g = s.0.take().unwrap();
+                                    s.1 = b_ops2.iter().map(|o| apply(&mut g, o).to_json().to_string()).collect();
+                                    s.0 = Some(g);
+                                };
+                                if other_thread {
+                                    std::thread::scope(|sc| {
+                                        sc.spawn(work);
+                                    });
+                                } else {
+                                    work();
+                                }
+                            }),
+                        );
+                        let mut a = reg.jitter(script);
+                        a.jitter().unwrap().set_rounds(*rounds);
+                        let got_a = obs_of(&mut a, a_ops);
+                        let got_b = slot.lock().unwrap().1.clone();
+                        overlaps += 1;
+                        if got_b.is_empty() {
+                            // the history of A did not reach reading k: not a scheduling point of this history
+                            continue;
+                        }
+                        if got_a != want_a || got_b != want_b {
+                            let b_desc = match b {
+                                B::Jitter(r, ops) => format!("a JitterRng (rounds {}) running {}", r, crate::ops::ops_short(ops)),
+                                B::Seeded(n) => format!("a {} running u64,fill5", n),
+                            };
+                            ctx.violation(
+                                "C19:JitterRng:overlapping-operations",
+                                &format!(
+                                    "JitterRng (rounds {}) running {} while {} {} inside its timer read #{}: it returns {:?} (one after the other: {:?}), the other instance {:?} (one after the other: {:?})",
+                                    rounds,
+                                    crate::ops::ops_short(a_ops),
+                                    b_desc,
+                                    if other_thread { "on another thread" } else { "on the same thread" },
+                                    k,
+                                    got_a,
+                                    want_a,
+                                    got_b,
+                                    want_b
+                                ),
+                                json!({"kind":"note","rounds":rounds,"a_ops":ops_json(a_ops),"other":b_desc,"timer_read":k,"other_thread":other_thread}),
+                            );
+                            break 'outer;
+                        }
+                    }
+                }
+            }
+        }
+        ctx.set("overlapping_operation_schedules", overlaps);
+    }
     ctx.set("schedules", counters.schedules);
     ctx.set("handoffs", counters.handoffs);
     ctx.set("schedules_two_instances_alternating_on_one_thread", counters.alternate_on_one_thread);
@@ -560,7 +693,7 @@ fn outcome() -> Outcome {
             traces: "solo_children",
             evaluations: "schedules",
             distinct: "distinct_instance_histories",
-            rule: "configurations = per type two instances x seed pairs {(a,a),(a,b),(Z,Z),(Z,a)} + seed_from_u64 pairs, cross-type pairs (each type with the next, every xoshiro type with SplitMix64; zero and dense seeds), zero-seeded generators of different state sizes, JitterRng pairs on scripted timers (incl. test_timer on one instance before the other is constructed), three-instance runs; for each configuration every interleaving of the instances' [construct, op, op] histories x every assignment of the steps to two OS threads (2^6 for 6 steps; 8 canonical patterns for 9 steps or test_timer runs) is executed under a token-passing scheduler and each instance's observations are compared with the same history run alone in a fresh child process".into(),
+            rule: "configurations = per type two instances x seed pairs {(a,a),(a,b),(Z,Z),(Z,a)} + seed_from_u64 pairs, cross-type pairs (each type with the next, every xoshiro type with SplitMix64; zero and dense seeds), zero-seeded generators of different state sizes, JitterRng pairs on scripted timers (incl. test_timer on one instance before the other is constructed), three-instance runs, JitterRng instances whose timers are zero-sized fn items of different types; plus re-entrant constructions (the source of from_rng constructs another generator) and overlapping operations (another instance runs a whole operation inside timer read #k of a JitterRng operation, every k, same thread and another thread); for each configuration every interleaving of the instances' [construct, op, op] histories x every assignment of the steps to two OS threads (2^6 for 6 steps; 8 canonical patterns for 9 steps or test_timer runs) is executed under a token-passing scheduler and each instance's observations are compared with the same history run alone in a fresh child process".into(),
         },
     }
 }
